@@ -120,4 +120,31 @@ def Conc.pack (k : Conc) (p : Rustic.Archive.BT × List Nat) : BuiltPack :=
 def packsOf (k : Conc) (s : Rustic.Archive.PSt) : List BuiltPack := s.packs.map k.pack
 def indexedOf (c : Cfg) (k : Conc) (s : Rustic.Archive.PSt) : List IndexPack := s.index.map fun p => (k.pack p).indexPack c
 
+/-! ### the index files the `Indexer` writes (`index/indexer.rs`)
+
+* `Ixr`            — `Indexer { file, count, .. }` plus the index files saved so far (`be.save_file(&self.file)`).
+* `Ixr.save`       — `save`: nothing is written for an empty file.
+* `Ixr.reset`      — `reset`.
+* `Ixr.add`        — `add_with(pack, false)`: `count += blobs.len()`, `file.add(pack)`, then
+                     `if count >= MAX_COUNT || elapsed >= MAX_AGE { save()?; reset() }` — in this order.  `aged` is the value
+                     of `elapsed >= MAX_AGE` at the call (the clock is not modelled: every schedule of flushes is covered).
+* `Ixr.run`        — all `indexer.add` calls of a run, then `finalize` (= `save`). -/
+
+structure Ixr where
+  file : List IndexPack := []
+  count : Nat := 0
+  saved : List IndexFile := []
+
+def Ixr.save (s : Ixr) : Ixr :=
+  if s.file.isEmpty then s else { s with saved := s.saved ++ [{ packs := s.file, packsToDelete := [] }] }
+
+def Ixr.reset (s : Ixr) : Ixr := { s with file := [], count := 0 }
+
+def Ixr.add (maxCount : Nat) (s : Ixr) (p : IndexPack) (aged : Bool) : Ixr :=
+  let s1 : Ixr := { s with count := s.count + p.blobs.length, file := s.file ++ [p] }
+  if decide (s1.count ≥ maxCount) || aged then s1.save.reset else s1
+
+def Ixr.run (maxCount : Nat) (adds : List (IndexPack × Bool)) : Ixr :=
+  (adds.foldl (fun (s : Ixr) a => s.add maxCount a.1 a.2) {}).save
+
 end Rustic.Store
